@@ -138,7 +138,7 @@ func TestVerifC08Names(t *testing.T) {
 		}
 	}
 	res.Bounds["objects"] = len(universe)
-	res.Rule = "total enumeration over ordered pairs (X, Y) of different objects from a universe of 2 databases x 3 collections x 2 partitions whose names contain the key separator and are prefixes of each other (d / d_a, a / a_b / b, p / b_p), through the real ChannelWriter with a downstream in which every object exists until its drop is applied: (live) the drop of Y replayed at T must leave an operation on the live object X stamped T-1 applied, exactly as without it; (kept) after the drop of X at T, the drop of Y at T+10 must leave an older operation on X skipped, exactly as without it. Y is never X, X's collection, or a partition of X"
+	res.Rule = "total enumeration over ordered pairs (X, Y) of different objects from a universe of 2 databases x 3 collections x 2 partitions whose names contain the key separator and are prefixes of each other (d / d_a, a / a_b / b, p / b_p), through the real ChannelWriter with a downstream in which every object exists until its drop is applied: (live) the drop of Y replayed at T must leave an operation on the live object X stamped T-1 applied, exactly as without it; (kept) after the drop of X at T, the drop of Y at T+10 must leave an older operation on X skipped, exactly as without it. Y is never X, X's collection, or a partition of X; plus a Flush naming two collections that the downstream rejects while the drop of none / one / both of them is being recorded: an error unless both are gone"
 	related := func(x, y n8Obj) bool {
 		if x.DB != y.DB || x.Coll != y.Coll {
 			return false
@@ -183,6 +183,39 @@ func TestVerifC08Names(t *testing.T) {
 		}
 	}
 	res.Bounds["pairs"] = n
+	// a Flush that names two collections, rejected by the downstream while the drop of none / one / both of them is
+	// recorded (by the event goroutine) with a time >= t: it is skipped successfully only if EVERY collection it still
+	// names is gone; a rejection that concerns a living collection is an error (C06: never silently skipped)
+	for mask := 0; mask < 4; mask++ {
+		if !ev.Mine(n + 1 + mask) {
+			continue
+		}
+		fd := &fakeDown{}
+		w, _ := newVerifWriter(fd, "", nil)
+		names := []string{"a", "b"}
+		fd.answer = func(kind string, p interface{}) error {
+			if kind == "Flush" {
+				for i, c := range names {
+					if mask&(1<<i) != 0 {
+						c08Seed(w, 1, c08Obj{D: T + 3}, "d", c, "")
+					}
+				}
+				return h8ErrDown
+			}
+			return nil
+		}
+		v := opVals{DB: "d", Colls: names, TS: T, Field: "f", Index: "i"}
+		_, err := w.HandleOpMessagePack(context.Background(), opPack(T, buildOp("Flush", v)))
+		res.Evaluations++
+		res.Transitions++
+		res.Traces++
+		res.Nontrivial++
+		wantErr := mask != 3
+		res.Outcome(fmt.Sprintf("flush-list:%d:%v", mask, err != nil))
+		if (err != nil) != wantErr {
+			res.Violate(fmt.Sprintf("C08/names/flush-list/dropped=%d", mask), fmt.Sprintf("Flush[a b] stamped %d is rejected by the downstream while the drop of the collections in set %02b (bit 0 = a, bit 1 = b) is recorded at %d: returned err=%v, want an error exactly when a named collection is still alive", T, mask, T+3, err), map[string]interface{}{"mask": mask})
+		}
+	}
 }
 
 // n8Shape: how the flat keys of the two objects relate (the signature of a finding)
